@@ -657,6 +657,7 @@ class WorkTree:
                 old_head = self._repo.refs[ref]
                 c.parents = [old_head, *merge_heads]
             except KeyError:
+                old_head = None
                 c.parents = list(merge_heads)
 
         # Handle message after parents are set
@@ -726,7 +727,11 @@ class WorkTree:
             self._repo.object_store.add_object(c)
         else:
             try:
-                old_head = self._repo.refs[ref]
+                # Swap against the head the parents were chosen from: reading
+                # the ref again here would silently drop a commit that
+                # somebody else made in between from the history.
+                if old_head is None:
+                    raise KeyError(ref)
                 if should_sign:
                     from dulwich.signature import get_signature_vendor
 
